@@ -2,6 +2,7 @@ import RedactVerif.Props.L2
 import RedactVerif.Props.FactsClassify
 import RedactVerif.Proofs.U.Top
 import RedactVerif.Proofs.S.Top
+import RedactVerif.Props.FactsSkelPrinter
 /-
 C06 — Unsafe(x) envelopes all of x; Safe(x) envelopes none; outermost wins.
 
